@@ -233,6 +233,7 @@ def gen_case(rng):
 def run(ctx):
     n = ctx.n(2500, 40000)
     res = {'disagreements': [], 'failures': []}
+    res['failures'] += common.threshold_failures('C07', ctx.quick())
     dist = collections.Counter()
     optd = collections.Counter()
     texts = []
@@ -322,6 +323,9 @@ def shrink(f):
 
 
 def replay(payload):
+    _f = payload.get('failure') or {}
+    if _f.get('threshold_input'):
+        return common.threshold_replay('C07', _f)
     f = payload.get('failure')
     if not f or 'input' not in f:
         return {'fails': False, 'note': 'no concrete input: ' + str(payload.get('no_longer_checks'))}
